@@ -24,14 +24,14 @@ TEMP_TICK = 10**6      # temperatures of the model are millionths of a degree
 
 ALL_UNITS = {"one", "percent", "rad", "aq", "m", "km", "cm", "mm", "kilo_m", "milli_m", "inch", "s", "minute", "hour", "ms",
              "kg", "gram", "tonne", "newton", "kN", "joule", "Nm", "Wh", "watt", "pascal", "kPa", "hertz", "rad_s",
-             "aq_s", "liter", "m3", "mps", "kmh", "kelvin", "mK"}
-INEXACT = {"milli_m"}       # prefixes.milli is the float 10**-3
+             "aq_s", "liter", "m3", "mps", "kmh", "kelvin", "mK", "thousand", "hundredth", "half"}
+INEXACT = {"milli_m", "half"}       # prefixes.milli is the float 10**-3; "half" is the plain float 0.5
 
 CFG = {
-    "quick": dict(UnitNames=ALL_UNITS, ValueNames={"v1", "v2", "vm3", "vh", "v75"}, MaxChain=2,
+    "quick": dict(UnitNames=ALL_UNITS - {"half"}, ValueNames={"v1", "v2", "vm3", "vh", "v75"}, MaxChain=2,
                   ExprOps={"mul", "div", "add", "sub", "sq", "scale"},
                   ExprUnits={"m", "km", "s", "hour", "kg", "newton", "one", "percent"}, ExprVals={"v2", "vh"},
-                  ImagFactors={2}, ComplexVals={"v2", "vh"},
+                  ImagFactors={2}, ComplexVals={"v2", "vh"}, ScaledVals={"v75"}, Exps10={40 - 30, 40 + 30},
                   Temps={300000000 + t for t in (-273150000, -40000000, 0, 25000000, 100000000, 273150000,
                                                  15000, 4222100, 21456000, 300123456, -268927899)}),
     "thorough": dict(UnitNames=ALL_UNITS, ValueNames={"v1", "v2", "vm3", "vh", "v75", "v1000", "vmil", "v0"}, MaxChain=3,
@@ -39,15 +39,16 @@ CFG = {
                      ExprUnits={"m", "km", "cm", "inch", "s", "hour", "ms", "kg", "gram", "newton", "kN", "joule", "Wh",
                                 "one", "percent", "rad", "aq", "kmh", "liter", "kelvin"},
                      ExprVals={"v2", "vh", "vm3", "v75"}, ImagFactors={1, 3}, ComplexVals={"v1", "vm3", "vh", "v75"},
+                     ScaledVals={"v2", "v75", "vm3"}, Exps10={40 - 34, 40 - 30, 40 - 19, 40 - 13, 40 + 20, 40 + 34},
                      Temps={300000000 + t for t in (-273150000, -273149999, -40000000, -1, 0, 1, 25000000, 36770000,
                                                     100000000, 273150000, 299990000, 15000, 4222100, 21456000, 300123456,
                                                     -268927899, 1234567, 77355001, 1357246801)}),
 }
 INVARIANTS = ["TypeOK", "ValuePreserved", "Composition", "Inverse", "OwnSIUnit", "RefusalExact", "Linear",
-              "EvaluationPreservesValue", "CelsiusHelper", "TempInverse"]
+              "EvaluationPreservesValue", "Homogeneous", "CelsiusHelper", "TempInverse"]
 # units that are plain SymPy expressions (no wrapped symplyphysics Quantity inside): an expression may mix them
 # with wrapped quantities
-PLAIN_UNITS = ALL_UNITS - {"one", "aq", "aq_s", "mK", "kilo_m", "milli_m", "kN"}
+PLAIN_UNITS = ALL_UNITS - {"one", "aq", "aq_s", "mK", "kilo_m", "milli_m", "kN", "thousand", "hundredth", "half"}
 VALS = {"v1": Fraction(1), "v2": Fraction(2), "vm3": Fraction(-3), "vh": Fraction(1, 2), "v75": Fraction(7, 5),
         "v1000": Fraction(1000), "vmil": Fraction(1, 1000), "v0": Fraction(0)}
 
@@ -79,6 +80,8 @@ def _real():
                 "pascal": u.pascal, "kPa": u.kPa, "hertz": u.hertz, "rad_s": u.radian / u.second,
                 "aq_s": Quantity(1, dimension=angle_type) / u.second,
                 "liter": u.liter, "m3": u.meter**3, "mps": u.meter / u.second, "kmh": u.kilometer / u.hour,
+                # plain numbers as conversion targets / as the unit a dimensionless quantity is counted in
+                "thousand": sp.Integer(1000), "hundredth": sp.Rational(1, 100), "half": 0.5,
                 "kelvin": u.kelvin, "mK": Quantity(sp.Rational(1, 1000) * u.kelvin),
             })
     return _R
@@ -221,13 +224,15 @@ def replay_expr(case, as_float, plain=False):
     r = _real()
     out = []
     exact = not as_float and case["a"]["u"] not in INEXACT and case["b"]["u"] not in INEXACT
-    qa = quantity(VALS[case["a"]["val"]], case["a"]["u"], as_float)
+    # both operands scaled by 10^e (the model: the value scales by 10^(e * degree of the operation))
+    c10 = Fraction(10) ** case.get("e", 0)
+    va, vb = VALS[case["a"]["val"]] * c10, VALS[case["b"]["val"]] * c10
+    qa = quantity(va, case["a"]["u"], as_float)
     if plain:
-        vb = VALS[case["b"]["val"]]
         qb = (float(vb) if as_float else rat(vb)) * r["unit"][case["b"]["u"]]
     else:
-        qb = quantity(VALS[case["b"]["val"]], case["b"]["u"], as_float)
-    want = Fraction(case["si"][0], case["si"][1])
+        qb = quantity(vb, case["b"]["u"], as_float)
+    want = Fraction(case["si"][0], case["si"][1]) * Fraction(10) ** case.get("e10", 0)
     with time_limit(20):
         e = build_expr(case["op"], qa, qb)
         scale = Fraction(0)
@@ -252,20 +257,26 @@ def replay_expr(case, as_float, plain=False):
 
 
 def replay_temp(case):
-    """Returns [(subkey | None, text)]; a subkey folds a failure of one helper at one temperature."""
+    """Returns [(subkey | None, text)]; a subkey folds a failure of one helper at one temperature.
+    One Celsius object is kept through the history (as in the model): conversions back from kelvin are stored
+    into it and "shift" changes its value in place."""
     r = _real()
     c = r["celsius"]
     out = []
     tol = 1e-9
     v = case["t0"] / TEMP_TICK
     scale = case["s0"]
-    for _ in range(case["steps"]):
-        if scale == "C":
-            v2 = c.to_kelvin(c.Celsius(v))
+    cobj = c.Celsius(v) if scale == "C" else None
+    for op in case.get("ops") or ["conv"] * case["steps"]:
+        if op == "shift":
+            cobj.value = cobj.value + 10
+            v = cobj.value
+        elif scale == "C":
+            v2 = c.to_kelvin(cobj)
             try:
-                vq = float(r["convert_to"](c.to_kelvin_quantity(c.Celsius(v)), r["units"].kelvin))
+                vq = float(r["convert_to"](c.to_kelvin_quantity(cobj), r["units"].kelvin))
                 if abs(vq - v2) > tol:
-                    out.append((None, f"to_kelvin_quantity({v} C) = {vq} K, to_kelvin = {v2}"))
+                    out.append((None, f"to_kelvin_quantity(Celsius object holding {cobj.value}) = {vq} K, to_kelvin = {v2}"))
             except Exception as e:  # pylint: disable=broad-except
                 out.append((f"temp to_kelvin_quantity({round(v, 6)} C)", f"to_kelvin_quantity(Celsius({v})) raised {type(e).__name__}: {e}"))
             v, scale = v2, "K"
@@ -281,10 +292,14 @@ def replay_temp(case):
             except Exception as e:  # pylint: disable=broad-except
                 out.append((f"temp from_kelvin_quantity({round(v, 6)} K)",
                             f"from_kelvin_quantity(Quantity({v} * kelvin)) raised {type(e).__name__}: {e}"))
+            if cobj is None:
+                cobj = c.Celsius(v2)
+            else:
+                cobj.value = v2           # the same object is reused
             v, scale = v2, "C"
     want = case["v"] / TEMP_TICK
     if scale != case["scale"] or abs(v - want) > tol:
-        out.append((None, f"after {case['steps']} step(s) from {case['t0'] / TEMP_TICK} {case['s0']}: code {v} {scale}, "
+        out.append((None, f"after {case.get('ops')} from {case['t0'] / TEMP_TICK} {case['s0']}: code {v} {scale}, "
                           f"model {want} {case['scale']}"))
     return out
 
@@ -330,8 +345,9 @@ def case_key(case):
     if case["k"] == "celsius":
         return f"celsius {case['a']['val']} {case['a']['u']}"
     if case["k"] == "expr":
-        return f"expr {case['op']}({case['a']['val']} {case['a']['u']}, {case['b']['val']} {case['b']['u']})"
-    return f"temp {case['t0']} {case['s0']} x{case['steps']}"
+        return f"expr {case['op']}({case['a']['val']} {case['a']['u']}, {case['b']['val']} {case['b']['u']})" + \
+            (f" x 1e{case['e']}" if case.get("e") else "")
+    return f"temp {case['t0']} {case['s0']} " + "/".join(case.get("ops") or [f"x{case['steps']}"])
 
 
 def enumerate_and_replay(run: Run, sc, cfgd, pool):
@@ -471,7 +487,8 @@ def trace_validation(run: Run, sc, pool, tier):
                                  "ud": x["ud"], "out": x["out"], "res": pair(x["res"])} for x in recs]))
     cfg = write_cfg(sc / "converttrace.cfg", init="TInit", next_="TNext",
                     constants=dict(UnitNames=set(), ValueNames=set(), MaxChain=0, ExprOps=set(), ExprUnits=set(),
-                                   ExprVals=set(), Temps=set(), ImagFactors=set(), ComplexVals=set()),
+                                   ExprVals=set(), Temps=set(), ImagFactors=set(), ComplexVals=set(), ScaledVals=set(),
+                                   Exps10=set()),
                     invariants=["Validate", "Checked"])
     res = run_tlc("ConvertTrace", cfg, sc, workers=1, env={"TRACE_FILE": str(path)}, allow_violation=False)
     run.add_tlc(res, f"trace validation: {len(recs)} conversions recorded from the real convert_to / convert_to_si over "
